@@ -163,8 +163,9 @@ fn profile(prop: Prop) -> Profile {
                 (ClearFilters, 1),
                 (StartListener, 4),
                 (StopListener, 1),
-                (RegisterIntrospection, 1),
-                (QueryIntrospection, 1),
+                (RegisterIntrospection, 3),
+                (QueryIntrospection, 4),
+                (QueryIntrospectionReply, 4),
                 (TakeStatistics, 2),
             ],
             end_percent: 40,
